@@ -50,3 +50,26 @@ Proof. vm_compute. reflexivity. Qed.
 Print Assumptions C13_grammar.
 Print Assumptions C13_error_last_once.
 Print Assumptions C13_closed.
+
+(* ---- the monitor of the correspondence harness, as a theorem about the model -----------------
+   `mon_C13` (Corr/CorrPipeline.v) is the executable grammar checker the harness evaluates on the
+   implementation's event streams: closed last and once, at most one error event, validation* ;
+   init ; complete task blocks for a prefix of the plan ; error?.  It accepts every run of the
+   model.  Hypothesis: `WF sc c0` of Properties/C01.v, of which only the first clause is used
+   (`locals_nodup sc`: an apply set names each object once); `C13_monitor_needs_nodup` shows the
+   clause is needed (a manifest id given twice is reported twice by its apply task). *)
+From CliUtils Require Import Corr.CorrPipeline Proofs.PipelineOrphansRun Proofs.PipelineMonBase
+     Proofs.PipelineMonC13 Proofs.PipelineMonPack.
+
+Theorem C13_monitor : forall sc c0, WF sc c0 -> mon_C13 sc c0 (run sc c0) = true.
+Proof. intros sc c0 W. exact (monitor_C13 sc c0 (WF_locals_nodup sc c0 W)). Qed.
+
+Theorem C13_monitor_nodup : forall sc c0, locals_nodup sc -> mon_C13 sc c0 (run sc c0) = true.
+Proof. exact monitor_C13. Qed.
+
+Theorem C13_monitor_needs_nodup : exists sc c0, ~ locals_nodup sc /\ mon_C13 sc c0 (run sc c0) = false.
+Proof. exists dup_sc, dup_c0. split; [exact (proj1 monitor_dup_refuted)|exact (proj1 (proj2 monitor_dup_refuted))]. Qed.
+
+Print Assumptions C13_monitor.
+Print Assumptions C13_monitor_nodup.
+Print Assumptions C13_monitor_needs_nodup.
